@@ -110,7 +110,7 @@ def file_problems(world, obs):
         probs, n = e2e.readback_problems(txt, readers, rmaps, qmaps, only_valid=True)
         zero = zero or n == 0
         for s, d, sig in probs:
-            if s in ('readback-exception', 'readback-count'):
+            if s in ('readback-exception', 'readback-count', 'readback-filter', 'readback-filter-exception'):
                 out.append((s, 'file %s: %s' % (fk, d)))
     return out, zero
 
